@@ -86,6 +86,22 @@ def run(ctx):
     ctx.check(n_bool >= 4, "R4", repo.mod(MD), repo.mod(MD).tree, "<module>", "boolean options", f"boolean options are read by value ({n_bool} reads through .get(key, default))",
               f"only {n_bool} of the documented boolean options are read by value")
 
+    # the plain and the thermostatted velocity-Verlet step are decided by value (sa.npsym: polynomial identities on symbolic x, v, a, 1/m, dt with a stand-in force driver);
+    # where that holds, findings of the event-word reading about the same two routines are artefacts of spelling
+    from ..assembly import interpreted_verlet_step
+    by_value_steps = set()
+    try:
+        for cls_, ok_, msg_ in interpreted_verlet_step(repo):
+            m_ = repo.mod(MD)
+            ctx.check(ok_, "R1", m_, m_.func(f"{cls_}.one_step"), f"{cls_}.one_step", "velocity-Verlet identities",
+                      f"{cls_}.one_step: x' = x + v dt + a dt^2/2, one force evaluation at x', a' = F'/m ACC_SCALE, v' = v + (a + a') dt/2"
+                      + (" between two thermostat half-steps" if "Langevin" in cls_ else ""), f"{cls_}.one_step: {msg_}")
+            if ok_:
+                by_value_steps.add(f"{cls_}.one_step")
+    except AnalysisError as e_:
+        ctx.note(f"one_step could not be interpreted ({str(e_)[:100]}); event-word reading only")
+    if by_value_steps:
+        ctx.demote = lambda rid, rel, function, message: ("decided by value (velocity-Verlet identities)" if rid == "R1" and function in by_value_steps else None)
     word_re = re.compile(r"^(TKDEAKT|KDEAK)H?$")
     for rel, q in STEP_FUNCS:
         m = repo.mod(rel)
@@ -125,6 +141,7 @@ def run(ctx):
             ctx.check(ok, "R1", m, a, q, a, "acceleration = force * mass_inverse * ACC_SCALE",
                       f"acceleration update is `{norm(a.value)}` (= {e}), not force*mass_inverse*ACC_SCALE")
         # the updates run without autograd tracking and drift uses post-kick velocities by construction of the word
+    ctx.demote = None
     ctx.floor("R1", 5 + 10 + 5 + 5)
 
     # the step hook is what run() calls, and each class's hook reaches its own one_step
